@@ -1018,7 +1018,8 @@ Proof.
     eapply (m_exprs_I n IHe) in E2; [|cbn [esize] in Hn; fold (esizes args) in Hn; lia|assumption].
     unfold comma in E2. ifinish.
   - (* EMember, not computed *)
-    destruct e0_2; try discriminate. use_IHI IHe IHs. cbn [write_expr]. ifinish.
+    destruct e0_2; try discriminate. use_IHI IHe IHs. cbn [write_expr].
+    destruct (is_decimal_int e0_1); cbn [negb andb]; ifinish.
   - (* ECompound *)
     destruct (t_type t =? T_PLUS_ASSIGN) eqn:E3; [|destruct (t_type t =? T_MINUS_ASSIGN) eqn:E4; [|discriminate]];
       injection E as E; subst l; bsplit; ifinish.
@@ -1235,11 +1236,11 @@ Proof.
   end; try (inversion H; subst; split; assumption).
   destruct (lx_read_while isDigit l) as [ip l1] eqn:E1.
   apply lx_read_while_ok in E1; [|exact Hl]. destruct E1 as [A1 B1].
-  match type of H with context [if ch 46 l1 && isDigit (peek l1) then ?a else ?b] =>
-    remember (if ch 46 l1 && isDigit (peek l1) then a else b) as X eqn:EX; destruct X as [[fp ty1] l2] end.
+  match type of H with context [if ch 46 l1 then ?a else ?b] =>
+    remember (if ch 46 l1 then a else b) as X eqn:EX; destruct X as [[fp ty1] l2] end.
   symmetry in EX.
   assert (HX : no_cr fp /\ lxok l2).
-  { destruct (ch 46 l1 && isDigit (peek l1)).
+  { destruct (ch 46 l1).
     - destruct (lx_read_while isDigit (read_char l1)) as [fd l2'] eqn:E2. inversion EX; subst.
       apply lx_read_while_ok in E2; [|apply read_char_ok; exact B1]. destruct E2 as [A2 B2].
       split; [ncr|exact B2].
